@@ -894,11 +894,46 @@ Lemma judge_tree_unfold : forall rec,
            let P := info tr in
            if negb (Nat.eqb (t_m P) m && Nat.eqb (t_n P) n &&
                     mat_eqb (t_M P) (if bot then support M else M)) then 270
-           else check_tree tr
+           else let r := check_tree tr in if negb (r =? 0) then r else check_prop_tree tr
          end
   | None => 1
   end.
 Proof. reflexivity. Qed.
+
+Lemma check_prop_tree_unfold : forall P ch,
+  check_prop_tree (TNode P ch) =
+  let r := check_prop P (map info ch) in
+  if negb (r =? 0) then r
+  else fold_left (fun acc c => if negb (acc =? 0) then acc else check_prop_tree c) ch 0.
+Proof. reflexivity. Qed.
+
+Theorem check_prop_tree_all_nodes : forall t,
+  check_prop_tree t = 0 -> Forall_tree (fun P Cs => check_prop P Cs = 0) t.
+Proof.
+  induction t as [P ch IH] using tree_ind'. intros H.
+  rewrite check_prop_tree_unfold in H. cbv zeta in H.
+  apply Forall_tree_unfold.
+  destruct (Z.eqb_spec (check_prop P (map info ch)) 0) as [E|E]; cbn [negb] in H.
+  - split; [exact E|].
+    apply fold_first_error_zero in H. destruct H as [_ H].
+    rewrite Forall_forall in *. intros c Hc. apply IH; [exact Hc | apply H; exact Hc].
+  - contradiction.
+Qed.
+
+(* what an accepted node says about the flags of its children *)
+Lemma sum_flag_ok_spec : forall p cs, sum_flag_ok p cs = true ->
+  (0 < p -> Forall (fun c => 0 <= c) cs) /\ (p < 0 -> ~ Forall (fun c => 0 < c) cs).
+Proof.
+  intros p cs H. unfold sum_flag_ok in H. split; intros Hp.
+  - destruct (0 <? p) eqn:E; [|apply Z.ltb_ge in E; lia].
+    rewrite forallb_forall in H. apply Forall_forall. intros c Hc. apply Z.leb_le. apply H. exact Hc.
+  - destruct (0 <? p) eqn:E; [apply Z.ltb_lt in E; lia|].
+    destruct (p <? 0) eqn:E2; [|apply Z.ltb_ge in E2; lia].
+    intros HF. apply negb_true_iff in H.
+    assert (forallb (fun c => 0 <? c) cs = true) as HT.
+    { apply forallb_forall. intros c Hc. rewrite Forall_forall in HF. apply Z.ltb_lt. apply HF. exact Hc. }
+    rewrite HT in H. discriminate.
+Qed.
 
 Theorem judge_tree_sound : forall rec cfg bot m n M tr rest,
   tree_input rec = Some ((cfg, bot, (m, n, M), 0, Some tr), rest) ->
@@ -914,7 +949,21 @@ Proof.
   apply andb_true_iff in E. destruct E as [E E3].
   apply andb_true_iff in E. destruct E as [E1 E2].
   apply Nat.eqb_eq in E1, E2. apply mat_eqb_eq in E3.
-  repeat (split; [assumption|]). apply check_tree_all_nodes. exact H.
+  destruct (Z.eqb_spec (check_tree tr) 0) as [Ec|Ec]; cbn [negb] in H; [|contradiction].
+  repeat (split; [assumption|]). apply check_tree_all_nodes. exact Ec.
+Qed.
+
+(* ... and the flags of every inner node are consistent with those of its children *)
+Theorem judge_tree_flags_consistent : forall rec cfg bot m n M tr rest,
+  tree_input rec = Some ((cfg, bot, (m, n, M), 0, Some tr), rest) ->
+  judge_tree rec = 0 ->
+  Forall_tree (fun P Cs => check_prop P Cs = 0) tr.
+Proof.
+  intros rec cfg bot m n M tr rest Hdec H.
+  rewrite judge_tree_unfold, Hdec in H. change (negb (0 =? 0)) with false in H. cbv iota zeta in H.
+  step H.
+  destruct (Z.eqb_spec (check_tree tr) 0) as [Ec|Ec]; cbn [negb] in H; [|contradiction].
+  apply check_prop_tree_all_nodes. exact H.
 Qed.
 
 (* the decoded input matrix is well-formed, so the root's matrix has the recorded shape *)
